@@ -11,7 +11,7 @@
    defaults and reads numeric attribute literals back ("compared by value"). *)
 From Coq Require Import NArith List.
 From Acme.C08 Require Import DbcAst Chars DbcLex DbcParse DbcWrite Expr ProofsLex ProofsLexPrint ProofsFormat
-  ProofsSections ProofsFile ProofsPok ProofsRoundTrip Examples.
+  ProofsSections ProofsFile ProofsPok ProofsGood ProofsRoundTrip Examples.
 Import ListNotations.
 
 (* every scan consumes a prefix of the remaining text *)
@@ -55,28 +55,30 @@ Theorem parse_write_equiv : forall ud fmt prs hex, ud_ok ud -> oracle_ok fmt prs
 Proof. exact ProofsRoundTrip.parse_write_equiv. Qed.
 Print Assumptions parse_write_equiv.
 
-(* second half of the property, full statement: for every accepted text, writing the parsed
-   document and parsing it again yields an equivalent document *)
-Definition parse_write_parse_statement : Prop :=
-  forall ud fmt prs hex, ud_ok ud -> oracle_ok fmt prs ->
+(* parse_output_expressible: every document the parser returns is expressible (identifier and
+   string tokens are well formed by construction of the lexer, numbers are range-checked by the
+   conversions, lists the grammar requires non-empty are non-empty); the float oracle must return
+   finite values (strconv.ParseFloat reports +-Inf as an error) *)
+Theorem parse_output_expressible : forall ud prs hex,
+  (forall v b, prs v = Some b -> fin b = true) ->
+  forall t f, parse ud prs hex t = OOk f -> wf_file (peek_digits ud) f.
+Proof. exact ProofsGood.parse_output_expressible. Qed.
+Print Assumptions parse_output_expressible.
+
+(* parse_write_parse (second half of the property, full): for every accepted text, writing the
+   parsed document and parsing it again yields an equivalent document *)
+Theorem parse_write_parse : forall ud fmt prs hex, ud_ok ud -> oracle_ok fmt prs ->
   (forall v b, prs v = Some b -> fin b = true) ->
   forall t f, parse ud prs hex t = OOk f ->
   exists f', parse ud prs hex (write fmt hex f) = OOk f' /\ equiv fmt hex f' f.
-
-(* proved part: it holds for every accepted text whose parsed document is expressible ([wf_file]);
-   what is missing is parse_output_expressible (parse t = OOk f -> wf_file f, with identifier
-   well-formedness generalised to non-ASCII digits) — see props/C08/NOTES.md *)
-Theorem parse_write_parse_partial : forall ud fmt prs hex, ud_ok ud -> oracle_ok fmt prs ->
-  forall t f, parse ud prs hex t = OOk f -> wf_file (peek_digits ud) f ->
-  exists f', parse ud prs hex (write fmt hex f) = OOk f' /\ equiv fmt hex f' f.
-Proof. intros ud fmt prs hex Hud Hor t f _ Hwf. exact (ProofsRoundTrip.parse_write_equiv ud fmt prs hex Hud Hor f Hwf). Qed.
-Print Assumptions parse_write_parse_partial.
+Proof. exact ProofsRoundTrip.parse_write_parse. Qed.
+Print Assumptions parse_write_parse.
 
 (* the hypotheses are satisfiable: an oracle pair with the two laws, a document over several
    sections (multiplexing, extended mux, every attribute value form) that is expressible, and its
    round trip evaluated in both number modes *)
-Theorem oracle_laws_satisfiable : oracle_ok toy_fmt toy_prs.
-Proof. exact Examples.toy_oracle_ok. Qed.
+Theorem oracle_laws_satisfiable : oracle_ok toy_fmt toy_prs /\ (forall v b, toy_prs v = Some b -> fin b = true).
+Proof. exact (conj Examples.toy_oracle_ok Examples.toy_prs_finite). Qed.
 Print Assumptions oracle_laws_satisfiable.
 
 Theorem expressible_satisfiable : wf_file no_ud sample_file.
